@@ -17,7 +17,10 @@ for d in sorted(glob.glob(os.path.join(V, 'seeded', '*'))):
 for name, patch, props in items:
     if sel not in name:
         continue
-    subprocess.check_call(['git', '-C', '/repo', 'apply', patch])
+    if subprocess.call(['git', '-C', '/repo', 'apply', patch]) != 0:
+        print('%-45s ---- DOES-NOT-APPLY (regenerate the patch against the current HEAD)' % name)
+        ok = False
+        continue
     try:
         for pr in props:
             r = subprocess.run([os.path.join(V, 'check'), pr], stdout=subprocess.PIPE, stderr=subprocess.STDOUT, text=True)
